@@ -73,6 +73,8 @@ def shards(tier):
         for cb in (16, 20):
             out.append({"buf": buf, "fmt": "qcow2", "snapview": True, "cb": cb})
         out.append({"buf": buf, "fmt": "vmdk-sesparse", "tablecache": True})
+        for cb in (16, 18):
+            out.append({"buf": buf, "fmt": "qcow2", "extcomp": True, "cb": cb})
     return out
 
 
@@ -239,7 +241,54 @@ def _tablecache(case, ctx):
         ctx.maxi("tablecache_cost_over_bound_permille", int(1000 * fh.bytes_requested / allow))
 
 
+def _extcomp(case, ctx):
+    """Extended L2 entries next to compressed clusters whose descriptors cover 30 / 100 KiB of the file: a request inside one
+    compressed cluster fetches it once, whatever the number of sub-cluster borders the request crosses."""
+    from dissect.hypervisor.disk.qcow2 import QCow2
+
+    from mc.builders import qcow2 as B
+
+    buf = bootstrap.bufsize()
+    cb = case["cb"]
+    cs = 1 << cb
+    ctx.executions += 1
+    ctx.model(case)
+    ctx.sample(case)
+    ctx.outcome("qcow2")
+    ctx.nontrivial += 1
+    sub_u = ["u"] * 32
+    states = [{"kind": B.C, "sub": sub_u}, {"kind": B.N, "sub": ["a"] * 32}, {"kind": B.C, "sub": sub_u}, {"kind": B.U, "sub": sub_u}]
+    extra = (cs // 512) // 2 - 8  # descriptors that claim about half a cluster of 512-byte sectors each
+    img, _ = B.build(states, [None, 1, None, None], cb, 3, ext=True, comp={0: (0, extra, False), 2: (511, extra, False)})
+    model = B.model(states, cb)
+    fh = img.sparse(log=False)
+    M = img.meta_bytes
+    with ctx.watch(case, 300):
+        q = QCow2(fh)
+        allow = 2 * M + 65536
+        reqs = [(cs // 8, cs * 3 // 4), (cs // 32, cs // 2), (2 * cs + cs // 16 + 7, cs // 2), (0, cs), (cs // 2, 2 * cs),
+                (2 * cs + 5, cs - 9)]
+        for k, (a, n) in enumerate(reqs):
+            ctx.transitions += 1
+            ctx.states += 1
+            q.seek(a)
+            got = q.read(n)
+            if got != model.content(a, n):
+                ctx.violation(case, {"subject": "qcow2.extl2-compressed.read", "kind": "mismatch"}, {"offset": a, "length": n})
+                return
+            allow += 4 * (n + 2 * buf)
+            if fh.bytes_requested > allow:
+                ctx.violation(case, {"subject": "qcow2.io", "kind": "io-bound-exceeded", "request": "compressed-cluster-fetched-per-sub-cluster"},
+                              {"read_bytes_so_far": fh.bytes_requested, "bound": allow, "metadata_bytes": M, "after_request": k,
+                               "descriptor_bytes": (extra + 1) * 512})
+                return
+        ctx.maxi("extcomp_cost_over_bound_permille", int(1000 * fh.bytes_requested / allow))
+
+
 def run_shard(shard, ctx):
+    if shard.get("extcomp"):
+        run_case({"extcomp": True, "cb": shard["cb"]}, ctx)
+        return
     if shard.get("tablecache"):
         run_case({"tablecache": True}, ctx)
         return
@@ -433,6 +482,8 @@ def run_case(case, ctx):
         return _snapview(case, ctx)
     if case.get("tablecache"):
         return _tablecache(case, ctx)
+    if case.get("extcomp"):
+        return _extcomp(case, ctx)
     fmt, scale, place, density = case["fmt"], case["scale"], case["place"], case["density"]
     f = FORMATS[fmt]
     unit = f["unit"]
